@@ -71,6 +71,9 @@ func c14Gen(rt *rapid.T) wProg {
 			op = wOp{K: "del", S: s, T: "g0", A: "sub", U: gInt(rt, 1, 2, "tgt")}
 		case x < 88:
 			op = wOp{K: "set", S: s, T: topicFor(s), A: "mode", B: gPick(rt, []string{"JRWPS", "N", "JRWP"}, "want")}
+		case x < 89:
+			// the connection is replaced: the old one drops and a new one is accepted while the rest of the batch runs
+			op = wOp{K: "conn", S: s}
 		case x < 91:
 			op = wOp{K: "disc", S: s}
 		case x < 94:
@@ -148,6 +151,28 @@ func c14Gen(rt *rapid.T) wProg {
 				p.Ops = append(p.Ops, wOp{K: "tick", N: 5500}, wOp{K: "par", Par: []wOp{
 					{K: "sub", S: sp, T: ref, L: gInt(rt, 0, 3, "y1")}, {K: "del", S: sv, A: "user", U: victim, F: gPct(rt, 50), L: gInt(rt, 0, 3, "y2")}}})
 			}
+		case x >= 98:
+			// one participant leaves a P2P topic for good, the topic is unloaded, the other one deletes it without attaching
+			s0, s1 := -1, -1
+			for k, u := range p.Sess {
+				if u == 0 && s0 < 0 {
+					s0 = k
+				}
+				if u == 1 && s1 < 0 {
+					s1 = k
+				}
+			}
+			if s0 >= 0 && s1 >= 0 {
+				a, b, ta, tb := s0, s1, "p1", "p0"
+				if gPct(rt, 50) {
+					a, b, ta, tb = s1, s0, "p0", "p1"
+				}
+				p.Ops = append(p.Ops, wOp{K: "sub", S: a, T: ta}, wOp{K: "sub", S: b, T: tb}, wOp{K: "leave", S: b, T: tb, F: true})
+				for k := range p.Sess {
+					p.Ops = append(p.Ops, wOp{K: "leave", S: k, T: fmt.Sprintf("p%d", 1-min(p.Sess[k], 1))})
+				}
+				p.Ops = append(p.Ops, wOp{K: "tick", N: 5500}, wOp{K: "del", S: a, T: ta, A: "topic", F: gPct(rt, 50)})
+			}
 		case x < 92:
 			// slow consumer: pause one attached session, flood the topic from another one
 			s := gInt(rt, 1, len(p.Sess)-1, "slow")
@@ -211,10 +236,10 @@ func (o *c14Obs) After(w *wWorld, st *wStep) *kit.Viol {
 		detach := map[string]bool{}
 		for _, s := range steps {
 			touching[s.Route]++
-			if s.Op.K == "leave" || s.Op.K == "disc" || (s.Op.K == "del" && s.Op.A != "msg") {
+			if s.Op.K == "leave" || s.Op.K == "disc" || s.Op.K == "conn" || (s.Op.K == "del" && s.Op.A != "msg") {
 				detach[s.Route] = true
 			}
-			if s.Op.K == "disc" {
+			if s.Op.K == "disc" || s.Op.K == "conn" {
 				for _, n := range o.preNames[s.Sess] {
 					touching[n]++
 					detach[n] = true
@@ -240,7 +265,7 @@ func (o *c14Obs) After(w *wWorld, st *wStep) *kit.Viol {
 	}
 	discInBatch := map[int]bool{}
 	for _, s := range steps {
-		if s.Op.K == "disc" {
+		if s.Op.K == "disc" || s.Op.K == "conn" {
 			discInBatch[s.Sess] = true
 		}
 	}
